@@ -46,6 +46,7 @@ def run(ctx):
              [f for f in ctx.fb.functions() if f.file.endswith("/deferred_guarded.hpp")], floor=20)
     ctx.step(exception_identity, ctx, "C06.exc")
     ctx.step(result_identity, ctx)
+    ctx.step(later_operations, ctx)
     ctx.step(common.raii_only, ctx, "C06.raii", ["deferred_guarded.hpp"], floor=20)
     ctx.step(common.witnesses, ctx, "C06.witness", ["C06"])
 
@@ -415,6 +416,55 @@ def owned_functor(ctx, rid="C06.capture"):
                    "" if bad is None else bad[1] + ": the drainer later calls a destroyed object", fn=f.label, inst=f.qname)
     if n == 0:
         ctx.broken("modify_detach / modify_async not instantiated")
+
+
+KNOWN_OPS = ("modify_detach", "modify_async", "do_pending_writes", "do_pending_writes_internal", "lock", "try_lock", "try_lock_for",
+             "try_lock_until", "lock_shared", "try_lock_shared", "try_lock_shared_for", "try_lock_shared_until", "load")
+
+
+def later_operations(ctx, rid="C06.order"):
+    """operations added to deferred_guarded after the rules above were written take part in the same protocol:
+    (a) whoever modifies the object under the exclusive lock first applies what is queued, inside that critical section
+        (older submissions first) - a try-lock flush BEFORE the blocking acquisition does not do: submissions can be queued
+        in between;
+    (b) a queued modification leaves the queue only by being executed: nothing but the drain empties the pending list"""
+    ctx.rule(rid, "every modifier drains the queue inside its exclusive section before it touches the object; only the drain "
+             "removes entries from the pending list", floor=0)
+    fb, eng = ctx.fb, ctx.eng
+    for f in fb.functions(rec=CLS):
+        if f.kind in ("ctor", "dtor"):
+            continue
+        la = eng.locks(f)
+        if f.name not in KNOWN_OPS and f.access == "public":
+            muts = list(functor_applications(f))
+            for st in field_refs(f, CLS):
+                if st["m"]["name"] == "m_obj":
+                    acc, _user = eng.classify_access(f, st)
+                    if acc in ("write", "call", "addr", "bind"):
+                        muts.append(st)
+            drains = [tuple(f.pos_of(s)) for s in _calls(f, lambda s: (s.get("callee") or {}).get("name") == "do_pending_writes_internal"
+                      and path(f, f.s(s.get("obj"))) == "this") if f.pos_of(s)]
+            for m in muts:
+                mp = f.pos_of(m)
+                if mp is None or not la.holds(mp, "this.m_mutex", "X"):
+                    continue        # the guard rule judges accesses without the exclusive lock
+                ok = any(f.dominates(d, tuple(mp)) and la.holds(d, "this.m_mutex", "X") and _same_section(f, la, d, tuple(mp)) for d in drains)
+                if not ok and drains:
+                    ok = _drained_when_owned(f, la, drains, tuple(mp))
+                ctx.ob(rid, ok, f.loc(m), "%s applies the queued modifications before its own, inside the same exclusive section" % f.name,
+                       "" if ok else "the object is modified under the exclusive lock without do_pending_writes_internal() having run "
+                       "in this critical section: a modification queued earlier is applied AFTER this one", fn=f.label, inst=f.qname)
+        if f.name != "do_pending_writes_internal":
+            for st in f.stmts.values():
+                if st["k"] == "CXXMemberCallExpr" and (st.get("callee") or {}).get("name") in (
+                        "clear", "erase", "pop_back", "pop_front", "resize", "assign", "swap", "shrink_to_fit"):
+                    o = f.s(st.get("obj"))
+                    on_list = o is not None and any(d["k"] == "MemberExpr" and d["m"].get("name") == "m_pendingList"
+                                                    for d in f.descendants(o))
+                    if on_list:
+                        ctx.ob(rid, False, f.loc(st), "queued modifications leave the pending list only by being executed",
+                               "%s() on the pending list in %s: the queued functions are dropped - they are never applied and "
+                               "their futures are never satisfied" % (st["callee"]["name"], f.name), fn=f.label, inst=f.qname)
 
 
 def result_identity(ctx, rid="C06.result"):
